@@ -835,6 +835,22 @@ def c_integer_abs_on_double(f, want='abs'):
                 return 'double'
         return None
     out = []
+    if want == 'narrow':
+        # single-precision storage, and floating values stored into integer variables (both lose what the double formula computed)
+        for pt, pn in f.params:
+            if re.search(r'\bfloat\b', pt):
+                out.append((f.line, 'parameter `%s %s` is single precision' % (pt, pn)))
+        if f.ret and re.search(r'\bfloat\b', f.ret):
+            out.append((f.line, 'return type `%s` is single precision' % f.ret))
+        for st in f.walk():
+            if isinstance(st, CDecl):
+                if re.search(r'\bfloat\b', st.ctype):
+                    out.append((st.line, '`%s %s` is single precision' % (st.ctype, st.name)))
+                elif not (st.pointer or st.array) and _base_type(st.ctype) == 'int' and isinstance(st.init, ast.AST) and ty(st.init) == 'double':
+                    out.append((st.line, '`%s %s = %s` truncates a floating-point value' % (st.ctype, st.name, unparse(st.init)[:50])))
+            elif isinstance(st, CAssign) and isinstance(st.target, ast.Name) and types.get(st.target.id) == 'int' and isinstance(st.value, ast.AST) and ty(st.value) == 'double':
+                out.append((st.line, '`%s %s %s` truncates a floating-point value into an int' % (st.target.id, st.op, unparse(st.value)[:50])))
+        return out
     for st in f.walk():
         for h, a in _expr_fields(st):
             e = getattr(h, a)
@@ -848,6 +864,11 @@ def c_integer_abs_on_double(f, want='abs'):
                             continue
                         out.append((st.line, unparse(n)))
     return out
+
+
+def c_narrow_storage(f):
+    """single-precision (float) parameters, return types and locals, and floating-point values stored into int variables: (line, text)"""
+    return c_integer_abs_on_double(f, want='narrow')
 
 
 def c_integer_division(f):
